@@ -24,7 +24,8 @@ Stateful ops (after `reset`)
   addres <hex>                                           -> ok <id> <W> <T> | err <word> <W> <T>
   addchunk <dsize> <codec> <hex> <sec> <ter>             -> ok <W> <T> | err <word> <W> <T>
   cwclose                                                -> ok <W> <T> | err <word> <W> <T>
-  w <loc> <cpagesize> <temp> <failAt> <cchunk> <dchunk> <codec> <oob> <cancut> <nilwriter> <res,res,…|none>  -> ok
+  w <loc> <cpagesize> <temp> <failAt> <cchunk> <dchunk> <codec> <oob> <cancut> <nilwriter> <res,res,…|none> [<failclose>]  -> ok
+     (<nilwriter>: 1 = nil Writer, 2 = nil CodecWriter; <failclose>: the CodecWriter's Close fails)
   write <hex>                                            -> ok <n> <W> <T> | err <word> <W> <T>
   close                                                  -> ok <W> <T> | err <word> <W> <T>
   specself                                               -> like spec, on everything written to Writer so far
@@ -94,6 +95,20 @@ def resStr (e : Option Err) (okExtra : String := "") : String :=
 
 def hDecompress (codec : Nat) (v : HCodec.Variant) : Nat → Bytes → Bytes → Bytes → Option Bytes :=
   fun c p _ _ => if c == codec && c == v.codec then HCodec.decompress p else none
+
+def startW (s : St) (loc cps temp failAt cchunk dchunk codec oob cancut nilw res failClose : String) : St × String :=
+    match cps.toNat?, temp.toNat?, failAt.toNat?, cchunk.toNat?, dchunk.toNat?, codec.toNat? with
+    | some cps, some temp, some failAt, some cchunk, some dchunk, some codec =>
+      let resources : Option (List Bytes) := if res == "none" then some [] else (res.splitOn ",").mapM fromHex
+      match resources with
+      | some resources =>
+        let v : HCodec.Variant := { codec := codec, oob := oob == "1", canCut := cancut == "1", failClose := failClose == "1" }
+        let w : Writer := { nilWriter := nilw == "1", nilCodecWriter := nilw == "2", indexAtStart := loc == "1", tempKind := temp, cPageSize := cps,
+                            cChunkSizeCfg := cchunk, dChunkSizeCfg := dchunk, resourcesData := resources,
+                            chunkWriter := { io := { failAt := failAt } } }
+        ({ w := some (w, v) }, "ok")
+      | none => (s, "bad-op")
+    | _, _, _, _, _, _ => (s, "bad-op")
 
 def step (s : St) (l : List String) : St × String :=
   match l with
@@ -184,18 +199,9 @@ def step (s : St) (l : List String) : St × String :=
       report { s with cw := some cw } cw.io (resStr e)
     | none => (s, "bad-op")
   | ["w", loc, cps, temp, failAt, cchunk, dchunk, codec, oob, cancut, nilw, res] =>
-    match cps.toNat?, temp.toNat?, failAt.toNat?, cchunk.toNat?, dchunk.toNat?, codec.toNat? with
-    | some cps, some temp, some failAt, some cchunk, some dchunk, some codec =>
-      let resources : Option (List Bytes) := if res == "none" then some [] else (res.splitOn ",").mapM fromHex
-      match resources with
-      | some resources =>
-        let v : HCodec.Variant := { codec := codec, oob := oob == "1", canCut := cancut == "1" }
-        let w : Writer := { nilWriter := nilw == "1", indexAtStart := loc == "1", tempKind := temp, cPageSize := cps,
-                            cChunkSizeCfg := cchunk, dChunkSizeCfg := dchunk, resourcesData := resources,
-                            chunkWriter := { io := { failAt := failAt } } }
-        ({ w := some (w, v) }, "ok")
-      | none => (s, "bad-op")
-    | _, _, _, _, _, _ => (s, "bad-op")
+    startW s loc cps temp failAt cchunk dchunk codec oob cancut nilw res "0"
+  | ["w", loc, cps, temp, failAt, cchunk, dchunk, codec, oob, cancut, nilw, res, failClose] =>
+    startW s loc cps temp failAt cchunk dchunk codec oob cancut nilw res failClose
   | ["write", h] =>
     match s.w, fromHex h with
     | some (w, v), some h =>
